@@ -528,6 +528,12 @@ func checkStoreAnswersQuestion(c *Ctx) {
 			}
 			c.see(fn)
 			n++
+			if isNewHelper(fn) {
+				// a store helper shared by the plugin's store sites counts once per call
+				if sites, _ := callSitesOf(fn); len(sites) > 1 {
+					n += len(sites) - 1
+				}
+			}
 			guarded := false
 			for _, gd := range guardsOfInstr(in) {
 				v, truth := gd.asBool()
